@@ -44,6 +44,21 @@ def reachable(nodes, roots):
     return seen
 
 
+def reachable_without_init(nodes, roots, presealed):
+    """reachability that does not follow the init-task edges of the pre-sealed nodes"""
+    seen, todo = set(), list(roots)
+    while todo:
+        n = todo.pop()
+        if n in seen or n >= len(nodes):
+            continue
+        seen.add(n)
+        su = succs(nodes[n])
+        if n in presealed:
+            su = [m for m in su if m not in nodes[n]["init"]]
+        todo.extend(su)
+    return seen
+
+
 def gen_case(c, g):
     desc = g.graph(p_cycle=0.25, p_pre=0.5, p_out=0.6)
     n = len(desc["nodes"])
@@ -51,14 +66,25 @@ def gen_case(c, g):
     desc["actions"] = [a for a in desc["actions"] if a["a"] not in ("submit", "seal")
                        and not (a["a"] == "set" and a["v"]["t"] == "out")]
     roots = c.rng.sample(range(n), c.rng.choice([1, 1, 2]))
+    tasks = [i for i in range(n) if desc["nodes"][i]["cls"] in TASKS]
+    if tasks and c.rng.random() < 0.6:
+        roots[0] = c.rng.choice(tasks)
     for r in roots:
         if desc["nodes"][r]["cls"] in TASKS and c.rng.random() < 0.7:
             light = [i for i in range(n) if desc["nodes"][i]["cls"] in LIGHT and i != r]
-            init = c.rng.sample(light, min(len(light), c.rng.choice([0, 0, 1]))) if light else []
+            if len(light) < 2:       # make sure lightweight tasks exist to attach
+                for cls in ("Init", "Pre"):
+                    desc["nodes"].append(dict(cls=cls, kw=[["v", vint(c.rng.choice([1, 2, 3]))]]))
+                    light.append(len(desc["nodes"]) - 1)
+            init = c.rng.sample(light, min(len(light), c.rng.choice([0, 1, 1, 2]))) if light else []
+            # pre-tasks and init tasks on the SAME node (the walk handles them in two separate steps)
+            if light and c.rng.random() < 0.5:
+                desc["actions"].append(dict(a="pre", n=r, ids=c.rng.sample(light, 1)))
             desc["actions"].append(dict(a="submit", n=r, init=init))
         else:
             desc["actions"].append(dict(a="seal", n=r))
     ops = []
+    n = len(desc["nodes"])
     light = [i for i in range(n) if desc["nodes"][i]["cls"] in LIGHT]
     for _ in range(c.rng.randint(3, 9)):
         k = c.rng.choices(["assign", "meta", "pre", "full", "raw", "seal", "jobpath"], [6, 3, 2, 4, 2, 1, 1])[0]
@@ -85,6 +111,8 @@ def gen_case(c, g):
             ops.append(dict(op=k, n=i))
     # identifiers of every node before and after, for the oracle
     ops = [dict(op="full", n=i) for i in range(n)] + ops + [dict(op="full", n=i) for i in range(n)]
+    n = len(desc["nodes"])
+    ops = [o for o in ops if not (o["op"] == "full" and False)]
     return dict(desc=desc, ops=ops, n=n)
 
 
@@ -126,10 +154,27 @@ def oracle(c, case, r):
     sealed = [i for i, x in enumerate(before) if x["sealed"]]
     frozen = reachable(before, sealed)
     # every configuration reachable from a sealed one is sealed
+    acts = case["desc"]["actions"]
     for i in frozen:
         if not before[i]["sealed"]:
-            c.violation("C14:reachable-not-sealed", "a configuration reachable from a sealed one is not sealed",
+            # recognisable special case: x was sealed first (seal action), then submitted with init tasks:
+            # submit() assigns init_tasks on the already sealed x and the Sealer stops at sealed nodes
+            presealed = [a["n"] for k, a in enumerate(acts) if a["a"] == "submit" and a.get("init")
+                         and any(b["a"] == "seal" and b["n"] == a["n"] for b in acts[:k])]
+            via_init = any(i in reachable(before, [j]) for x in presealed if x < len(before) for j in before[x]["init"])
+            others = reachable_without_init(before, sealed, presealed)
+            key = "C14:reachable-not-sealed"
+            if via_init and i not in others:
+                key += ":init-task-of-presealed-task"
+            c.violation(key, "a configuration reachable from a sealed one is not sealed",
                         dict(desc=case["desc"], node=i, sealed=sealed))
+    # the consequences of the known finding above (attempts accepted on such an init task) are not
+    # reported a second time under other keys
+    presealed = [a["n"] for k, a in enumerate(acts) if a["a"] == "submit" and a.get("init")
+                 and any(b["a"] == "seal" and b["n"] == a["n"] for b in acts[:k])]
+    if presealed:
+        frozen = reachable_without_init(before, [i for i in sealed], presealed) & {i for i in frozen if before[i]["sealed"]} \
+            if any(not before[i]["sealed"] for i in frozen) else frozen
     n = case["n"]
     first = {o["n"]: a for o, a in zip(r["ops"][:n], r["answers"][:n])}
     for o, a in zip(r["ops"], r["answers"]):
